@@ -2,23 +2,34 @@
 Line-protocol driver for the C10 models (PCA).  Parsing glue only; every number printed is the value
 of a definition of `Core/C10Book.lean` / `Core/C10Linear.lean` (the ones the theorems are about).
 
-val  := N | I k | F r | P k                      (None / python int / python float / numpy int)
-op   := S val | T val                            (n_active_components = val / trim_components(val))
+val  := N | I k | F r | P k | G r tvr <k cum…>   (None / python int / python float / numpy int /
+                                                  python float with the float values the code computed)
+        | R r tvr <k cum…>                        (as G, the repaired setter: count clamped to n_components)
+op   := S val | T val | O d k1                   (n_active_components = val / trim_components(val) /
+                                                  orthonormalize_against_inplace, other has k1 components)
 ops:
   book rows <k e₁…e_k> val <m op₁…op_m>
       → err value                                 (the constructor raised)
       | ok STATE (; ok|err STATE)*                 one STATE after the build and after every op
       STATE := rows nActive activeRows | k eig… | k trimmed… | k eigenvalues… | variance original
-               noise varianceRatio noiseRatio | k cumulativeRatio…
+               noise varianceRatio noiseRatio | k cumulativeRatio… | k eigenvaluesRatio… | (E | inverseNoise)
   post eps inv <k v₁…v_k>   → ok <m idx…> <m val…>    (eigenvalue_decomposition post-processing)
   pca centre <n d X…> <k d U…> <k l…>
       → ok <d mean…> trC sumL maxOrth maxEig maxVar <k sampleVariance…> maxRecon
   lin <k d U…> <d m…> <d x…> <j w…>
       → ok <k project…> (<d instance…> | E) <d reconstruct…> <d project_out…> maxUres
+  lvm hasMean <k d U…> <d m…> <d x…> <j w…>      (LinearVectorModel / MeanLinearVectorModel: exact weight count)
+      → ok <k project…> (<d instance…> | E) <d reconstruct…> <d project_out…>
+  obj (pc p dims | img c h w) tagT tagO <k d U…> <d m…> <d x…> <j w…> <k sd…> idx scale
+      → ok <k project…> ; OBJ mean ; (OBJ | E) instance ; OBJ reconstruct ; OBJ project_out ; OBJ component
+      OBJ := tag <d entries in the object's own nested index order>
+  white rows <k eig…> <t trimmed…> nActive nSamples <k' d U…> <k' σ…> <k' sd…> <d m…> <d x…> idx scale <k' w…>
+      → ok resσ ressd <k'·d W…> <k' project_whitened…> <d component…> <d instance(normalized)…>
 -/
 import MenpoModel.Core.Codec
 import MenpoModel.Core.C10Book
 import MenpoModel.Core.C10Linear
+import MenpoModel.Core.C10Object
 
 namespace MenpoModel.Drive.C10
 open MenpoModel.Codec MenpoModel.C10 Matrix
@@ -30,6 +41,8 @@ def pVal : P (Option Val) := do
   | "I" => do let k ← pInt; pure (some (.int k))
   | "F" => do let r ← pRat; pure (some (.float r))
   | "P" => do let k ← pInt; pure (some (.npint k))
+  | "G" => do let r ← pRat; let tvr ← pRat; let cum ← pList pRat; pure (some (.floatObs r tvr cum))
+  | "R" => do let r ← pRat; let tvr ← pRat; let cum ← pList pRat; pure (some (.floatObsClamped r tvr cum))
   | _ => failure
 
 def pOp : P Op := do
@@ -41,6 +54,7 @@ def pOp : P Op := do
     | some v => pure (.set v)
     | none => failure
   | "T" => do let v ← pVal; pure (.trim v)
+  | "O" => do let d ← pNat; let k1 ← pNat; pure (.ortho d k1)
   | _ => failure
 
 def fmtL (l : List Rat) : String := s!"{l.length}" ++ String.join (l.map fun r => " " ++ fmtRat r)
@@ -48,7 +62,8 @@ def fmtL (l : List Rat) : String := s!"{l.length}" ++ String.join (l.map fun r =
 def fmtSt (s : St) : String :=
   s!"{s.rows} {s.nActive} {s.activeRows} | {fmtL s.eig} | {fmtL s.trimmed} | {fmtL s.eigenvalues} | " ++
   s!"{fmtRat s.variance} {fmtRat s.originalVariance} {fmtRat s.noiseVariance} {fmtRat s.varianceRatio} " ++
-  s!"{fmtRat s.noiseVarianceRatio} | {fmtL s.eigenvaluesCumulativeRatio}"
+  s!"{fmtRat s.noiseVarianceRatio} | {fmtL s.eigenvaluesCumulativeRatio} | {fmtL s.eigenvaluesRatio} | " ++
+  (match s.inverseNoiseVariance with | .ok v => fmtRat v | .error _ => "E")
 
 /-- run the history, printing the state after every operation (`St.step` semantics) -/
 def runLog : St → List Op → List String
@@ -86,12 +101,80 @@ def linCheck (k d : Nat) (Ua : Array (Array Rat)) (ma xa : Array Rat) (w : List 
   let m := vofArr d ma
   let x := vofArr d xa
   let pa := vtoArr (project U m x)
-  let wa := w.toArray
   let ins : String :=
-    if w.length > k then "E" else fmtL (vtoArr (inst U m (fun i : Fin k => wa.getD i.val 0))).toList
+    match instPadded U m w with
+    | none => "E"
+    | some v => fmtL (vtoArr v).toList
   let ra := vtoArr (inst U m (vofArr k pa))
   let oa := vtoArr ((x - m) - (vofArr k pa) ᵥ* U)
   s!"ok {fmtL pa.toList} {ins} {fmtL ra.toList} {fmtL oa.toList} {fmtRat (maxAbsVec (U *ᵥ (vofArr d oa)))}"
+
+def wfun (k : Nat) (w : List Rat) : Fin k → ℚ := fun i => w.toArray.getD i.val 0
+
+/-- `LinearVectorModel` (`hasMean = false`: the mean-free definitions) / `MeanLinearVectorModel` -/
+def lvmCheck (hasMean : Bool) (k d : Nat) (Ua : Array (Array Rat)) (ma xa : Array Rat) (w : List Rat) : String :=
+  let U := ofArr k d Ua
+  let m := vofArr d ma
+  let x := vofArr d xa
+  let pa := vtoArr (if hasMean then project U m x else linProject U x)
+  let ins : String :=
+    match exactWeights k w with
+    | none => "E"
+    | some f => fmtL (vtoArr (if hasMean then inst U m f else linInstance U f)).toList
+  let ra := vtoArr (if hasMean then inst U m (vofArr k pa) else linInstance U (vofArr k pa))
+  let oa := vtoArr (if hasMean then (x - m) - (vofArr k pa) ᵥ* U else x - linInstance U (vofArr k pa))
+  s!"ok {fmtL pa.toList} {ins} {fmtL ra.toList} {fmtL oa.toList}"
+
+/-- the object-level operations of a `PCAModel` over a concrete class; `show` prints an object in its own
+nested index order -/
+def objCheck {α : Type} {d k : Nat} (M : ObjModel α d k) (o : α) (w : List Rat) (sd : Fin k → ℚ) (idx : Nat)
+    (scale : ℚ) («show» : α → String) : String :=
+  let pr := fmtL (vtoArr (M.project o)).toList
+  let ins := match M.instPadded w with | none => "E" | some a => «show» a
+  let comp := if h : idx < k then «show» (M.component sd ⟨idx, h⟩ true scale) else "E"
+  s!"ok {pr} ; {«show» M.mean} ; {ins} ; {«show» (M.reconstruct o)} ; {«show» (M.projectOut o)} ; {comp}"
+
+def showPC {p dims : Nat} (o : PC p dims) : String :=
+  s!"{o.tag} " ++ fmtRats ((List.finRange p).flatMap fun i => (List.finRange dims).map fun j => o.points i j)
+
+def showImg {c h w : Nat} (o : Img c h w) : String :=
+  s!"{o.tag} " ++ fmtRats ((List.finRange c).flatMap fun ch => (List.finRange h).flatMap fun y =>
+    (List.finRange w).map fun x => o.pixels ch y x)
+
+def objPC (p dims k : Nat) (tagT tagO : Nat) (Ua : Array (Array Rat)) (ma xa : Array Rat) (w sd : List Rat)
+    (idx : Nat) (scale : ℚ) : String :=
+  let d := p * dims
+  let ops := pcOps p dims
+  let M : ObjModel (PC p dims) d k :=
+    { ops := ops, template := freezePC (ops.fromVec ⟨0, tagT⟩ (vofArr d ma)), U := ofArr k d Ua, m := vofArr d ma }
+  let o : PC p dims := freezePC (ops.fromVec ⟨0, tagO⟩ (vofArr d xa))
+  objCheck M o w (wfun k sd) idx scale showPC
+
+def objImg (c h w' k : Nat) (tagT tagO : Nat) (Ua : Array (Array Rat)) (ma xa : Array Rat) (w sd : List Rat)
+    (idx : Nat) (scale : ℚ) : String :=
+  let d := c * h * w'
+  let ops := imgOps c h w'
+  let M : ObjModel (Img c h w') d k :=
+    { ops := ops, template := ops.fromVec ⟨fun _ _ _ => 0, tagT⟩ (vofArr d ma), U := ofArr k d Ua, m := vofArr d ma }
+  let o : Img c h w' := ops.fromVec ⟨fun _ _ _ => 0, tagO⟩ (vofArr d xa)
+  objCheck M o w (wfun k sd) idx scale showImg
+
+def whiteCheck (st : St) (nS : ℚ) (k d : Nat) (Ua : Array (Array Rat)) (sga sda ma xa : Array Rat) (idx : Nat)
+    (scale : ℚ) (w : List Rat) : String :=
+  let U := ofArr k d Ua
+  let σ := vofArr k sga
+  let sd := vofArr k sda
+  let m := vofArr d ma
+  let x := vofArr d xa
+  let l : Fin k → ℚ := fun i => st.eigenvalues.toArray.getD i.val 0
+  let noise := st.noiseVariance
+  let resσ := maxAbsVec (fun i => σ i ^ 2 - (l i * nS + noise))
+  let ressd := maxAbsVec (fun i => sd i ^ 2 - l i)
+  let Wa := toArr (whitened U σ)
+  let pw := vtoArr (projectWhitened U σ x)
+  let comp := if h : idx < k then fmtL (vtoArr (component U m sd ⟨idx, h⟩ true scale)).toList else "E"
+  let insn := fmtL (vtoArr (instNormalized U m sd (wfun k w))).toList
+  s!"ok {fmtRat resσ} {fmtRat ressd} {fmtL (Wa.toList.flatMap Array.toList)} {fmtL pw.toList} {comp} {insn}"
 
 def step (toks : List String) : String :=
   match toks with
@@ -125,6 +208,36 @@ def step (toks : List String) : String :=
       let k := U.length
       let d := m.length
       linCheck k d (rowsArr U) m.toArray x.toArray w
+  | "lvm" :: rest =>
+    match runP (do let hm ← pBool; let U ← pMat; let m ← pList pRat; let x ← pList pRat; let w ← pList pRat
+                   pure (hm, U, m, x, w)) rest with
+    | none => "bad-op"
+    | some (hm, U, m, x, w) => lvmCheck hm U.length m.length (rowsArr U) m.toArray x.toArray w
+  | "obj" :: "pc" :: rest =>
+    match runP (do let p ← pNat; let dims ← pNat; let tT ← pNat; let tO ← pNat; let U ← pMat; let m ← pList pRat
+                   let x ← pList pRat; let w ← pList pRat; let sd ← pList pRat; let idx ← pNat; let sc ← pRat
+                   pure (p, dims, tT, tO, U, m, x, w, sd, idx, sc)) rest with
+    | none => "bad-op"
+    | some (p, dims, tT, tO, U, m, x, w, sd, idx, sc) =>
+      if m.length ≠ p * dims ∨ x.length ≠ p * dims then "bad-op"
+      else objPC p dims U.length tT tO (rowsArr U) m.toArray x.toArray w sd idx sc
+  | "obj" :: "img" :: rest =>
+    match runP (do let c ← pNat; let h ← pNat; let w' ← pNat; let tT ← pNat; let tO ← pNat; let U ← pMat
+                   let m ← pList pRat; let x ← pList pRat; let w ← pList pRat; let sd ← pList pRat; let idx ← pNat
+                   let sc ← pRat; pure (c, h, w', tT, tO, U, m, x, w, sd, idx, sc)) rest with
+    | none => "bad-op"
+    | some (c, h, w', tT, tO, U, m, x, w, sd, idx, sc) =>
+      if m.length ≠ c * h * w' ∨ x.length ≠ c * h * w' then "bad-op"
+      else objImg c h w' U.length tT tO (rowsArr U) m.toArray x.toArray w sd idx sc
+  | "white" :: rest =>
+    match runP (do let rows ← pNat; let e ← pList pRat; let tr ← pList pRat; let na ← pNat; let nS ← pRat
+                   let U ← pMat; let sg ← pList pRat; let sd ← pList pRat; let m ← pList pRat; let x ← pList pRat
+                   let idx ← pNat; let sc ← pRat; let w ← pList pRat
+                   pure (rows, e, tr, na, nS, U, sg, sd, m, x, idx, sc, w)) rest with
+    | none => "bad-op"
+    | some (rows, e, tr, na, nS, U, sg, sd, m, x, idx, sc, w) =>
+      whiteCheck { rows := rows, eig := e, trimmed := tr, nActive := na } nS U.length m.length (rowsArr U)
+        sg.toArray sd.toArray m.toArray x.toArray idx sc w
   | _ => "bad-op"
 
 end MenpoModel.Drive.C10
